@@ -317,6 +317,25 @@ HEAVY = {
 }
 
 
+def vary(prog, rnd):
+    """a random variant of a program with the same structure: dispatches are dealt out differently
+    (which client sends which action, through which entry point) and a few are left out.  Dispatch
+    calls depend on nothing, so every variant is a legal program of the same instance."""
+    slots = [(c, i) for c in sorted(prog) for i, o in enumerate(prog[c]) if o["op"] == "dispatch"]
+    acts = [prog[c][i]["a"] for (c, i) in slots]
+    rnd.shuffle(acts)
+    out = {c: [dict(o) for o in ops] for c, ops in prog.items()}
+    drop = set()
+    for k, (c, i) in enumerate(slots):
+        out[c][i]["a"] = acts[k]
+        out[c][i]["via"] = rnd.choice(["impl", "trait", "store"])
+        if len(slots) > 2 and rnd.random() < 0.15:
+            drop.add((c, i))
+    for c in out:
+        out[c] = [o for i, o in enumerate(out[c]) if (c, i) not in drop]
+    return out
+
+
 def bigger(inst, k, cap=None):
     """the same programs with k dispatches for every dispatch (fresh action ids, same kind and entry
     point): too large for TLC to enumerate, used for free runs validated against the specification"""
